@@ -318,7 +318,11 @@ class Engine:
             ValueError: when the number of columns in the values is different from the number of input variables
         """
         values = tuple(input_variable.value for input_variable in self.input_variables)
-        result = np.column_stack(values) if values else np.array(values)
+        result = (
+            np.column_stack(np.broadcast_arrays(*(np.atleast_1d(v) for v in values)))
+            if values
+            else np.array(values)
+        )
         return result
 
     @input_values.setter
@@ -374,7 +378,11 @@ class Engine:
         """
         # TODO: Maybe a property setter like input_values.
         values = tuple(output_variable.value for output_variable in self.output_variables)
-        result = np.column_stack(values) if values else np.array(values)
+        result = (
+            np.column_stack(np.broadcast_arrays(*(np.atleast_1d(v) for v in values)))
+            if values
+            else np.array(values)
+        )
         return result
 
     @property
